@@ -44,9 +44,19 @@ def build_trigger(spec, do):
     if kind == "at_times":
         return AtTimesTrigger([datetime.fromisoformat(x) for x in spec["times"]], do, **kw)
     if kind == "range":
-        return TimeRangeTrigger(TimeRange(datetime.fromisoformat(spec["start"]), datetime.fromisoformat(spec["end"])), do, **kw)
+        tr = TimeRange(datetime.fromisoformat(spec["start"]), datetime.fromisoformat(spec["end"]))
+        trig = TimeRangeTrigger(tr, do, **kw)
+        if spec.get("reuse_objects"):  # the caller moves its window on and builds the next trigger from the same object
+            tr.start, tr.end = tr.start + timedelta(hours=1, minutes=7), tr.end + timedelta(hours=2)
+        return trig
     if kind == "ranges":
-        return TimeRangesTrigger([TimeRange(datetime.fromisoformat(a), datetime.fromisoformat(b)) for a, b in spec["ranges"]], do, **kw)
+        trs = [TimeRange(datetime.fromisoformat(a), datetime.fromisoformat(b)) for a, b in spec["ranges"]]
+        trig = TimeRangesTrigger(trs, do, **kw)
+        if spec.get("reuse_objects"):
+            for tr in trs:
+                tr.start, tr.end = tr.start + timedelta(hours=1, minutes=7), tr.end + timedelta(hours=2)
+            trs.append(TimeRange(datetime(2023, 1, 1), datetime(2033, 1, 1)))
+        return trig
     if kind == "period":
         return PeriodTrigger(
             timedelta(minutes=int(spec["period"])), do,
@@ -70,6 +80,9 @@ def _install(sim, market, a):
     def do(snapshot, **kwargs):
         sim.event("fire", tid, snapshot.timestamp, kwargs)
         sim.trig_calls.setdefault(tid, []).append((sim.bar, snapshot.timestamp, kwargs))
+        # what an action returns is its own business (Trigger.do hands it back, the loop has no use for it)
+        r = a.get("returns")
+        return {"count": len(sim.trig_calls[tid]), "time": snapshot.timestamp, "list": [1], "true": True, "dict": {"ok": 1}}.get(r)
 
     def call():
         trig = build_trigger(a, do)
@@ -325,6 +338,10 @@ def generate(seed: int, tier: str = "quick") -> dict:
             bar, phase = rp.randint(0, nb - 1), "before_bar"  # installed while the run is under way
         if rp.random() < 0.3:
             spec["how"] = "reassign"
+        if rp.random() < 0.3:
+            spec["returns"] = rp.choice(["count", "time", "list", "true", "dict"])
+        if kind in ("range", "ranges") and rp.random() < 0.25:
+            spec["reuse_objects"] = True
         program.append({"bar": bar, "phase": phase, "op": "trig.install", "m": None, "a": spec})
         if rp.random() < 0.12:  # the strategy later takes it off its list again
             rb = rp.randint(max(bar, 0), nb - 1)
